@@ -42,6 +42,12 @@ void h_uper_open_type_put(void) {
 void h_uper_open_type_skip(void) {
 	VF_BYTES(buf, VF_OTN + 2); VF_SCALAR(unsigned, len); VF_SCALAR(size_t, skip);
 	__CPROVER_assume(len <= VF_OTN && skip <= 7);
+#ifdef VF_SKIP
+	skip = VF_SKIP;         /* compile-time bit offset: one obligation per offset */
+#endif
+#ifdef VF_LEN
+	len = VF_LEN;
+#endif
 	asn_per_data_t pd; memset(&pd, 0, sizeof(pd));
 	unsigned char stream[VF_OTN + 3];
 	for(size_t i = 0; i < sizeof(stream); i++) stream[i] = 0;
